@@ -184,25 +184,33 @@ Definition get_doxygen (st : ts) : sres (option (list tok)) :=
   end.
 
 (* get_doxygen_after: only the current buffer is looked at *)
-Fixpoint doxa_scan (cs newb : list tok) (b : list tok) : list tok * list tok :=
-  (* returns (comments most recent first, new buffer) *)
+Fixpoint doxa_scan (depth : nat) (ended : bool) (cs newb : list tok) (b : list tok) : list tok * list tok :=
+  (* returns (comments most recent first, new buffer); depth = braces opened
+     behind the declaration, ended = its ';' has been passed *)
   match b with
   | [] => (cs, rev newb)
   | t :: r =>
       if tty t =? T_NEWLINE then (cs, rev newb ++ r)
-      else if tty t =? T_WHITESPACE then doxa_scan cs (t :: newb) r
+      else if tty t =? T_WHITESPACE then doxa_scan depth ended cs (t :: newb) r
       else if is_comment t then
-        if is_doc t then doxa_scan (t :: cs) newb r
+        if is_doc t then doxa_scan depth ended (t :: cs) newb r
         else
           (* a plain comment is layout, but it ends the doc block and, when it
              runs to the end of the line, the line *)
           match cs with
           | [] => if ends_nl (ttext t) then (cs, rev (t :: newb) ++ r)
-                  else doxa_scan cs (t :: newb) r
+                  else doxa_scan depth ended cs (t :: newb) r
           | _ => (cs, rev (t :: newb) ++ r)
           end
       else match cs with
-           | [] => doxa_scan cs (t :: newb) r
+           | [] =>
+               (* what lies behind the statement's ';' or behind the '}' of the
+                  enclosing block does not trail the declaration *)
+               if ended || ((tty t =? T_LIT_125) && (depth =? 0)%nat) then (cs, rev (t :: newb) ++ r)
+               else if tty t =? T_LIT_123 then doxa_scan (S depth) ended cs (t :: newb) r
+               else if tty t =? T_LIT_125 then doxa_scan (pred depth) ended cs (t :: newb) r
+               else if (tty t =? T_LIT_59) && (depth =? 0)%nat then doxa_scan depth true cs (t :: newb) r
+               else doxa_scan depth ended cs (t :: newb) r
            | _ => (cs, rev (t :: newb) ++ r)
            end
   end.
@@ -211,7 +219,7 @@ Definition get_doxygen_after (st : ts) : option (list tok) * ts :=
   match buf st with
   | [] => (None, st)
   | b =>
-      let '(cs, nb) := doxa_scan [] [] b in
+      let '(cs, nb) := doxa_scan 0 false [] [] b in
       (match cs with [] => None | _ => extract (rev cs) end, mkTs nb (raw st) (rfail st))
   end.
 
